@@ -643,6 +643,18 @@ class SymMixin:
             if kind == "bytes":
                 if isinstance(k, tuple) and k and k[0] == "slice":
                     return Sym(("slice", o.term, kterm(k[1]), kterm(k[2])), "bytes")
+                ln = o.info.get("len")
+                if isinstance(k, int) and not isinstance(k, bool):
+                    if isinstance(ln, int):
+                        if not (-ln <= k < ln):
+                            run.emit("raise-site", "IndexError", self.site(node), "index out of range")
+                            self.throw("IndexError", "index out of range", node)
+                    else:
+                        # bytes of unknown length (a raw read may return fewer bytes than asked for, b"" at end of stream)
+                        need = k + 1 if k >= 0 else -k
+                        if not run.decide(("ge", ("len", o.term), ("k", need)), self.site(node)):
+                            run.emit("raise-site", "IndexError", self.site(node), f"index {k} into bytes that may be shorter (b'' at end of stream)")
+                            self.throw("IndexError", "index out of range", node)
                 return Sym(("byteat", o.term, kterm(k)), "int", lo=0, hi=255)
             if kind == "any" and o.term[0] in ("maybe",):
                 self.limit("subscript of a maybe-value", node)
@@ -743,38 +755,76 @@ class SymMixin:
 
     def explore_body(self, run, env, body_fn, node):
         """Enumerate the paths of one iteration of a loop body. Returns list of
-        (facts, effects, outcome, value)."""
+        (facts, effects, outcome, value).
+
+        A local that an iteration rebinds and that the body also reads is loop-carried: later iterations find in it what an earlier
+        one left there, not what it held before the loop.  The body is therefore explored a second time for every value an
+        iteration can leave in such a name (one round: values left by first-round iterations), and those paths are added."""
         snapshot = dict(env.vars)
         base = next(_ids)
-        results, todo = [], [[]]
-        while todo:
-            dec = todo.pop()
-            sub = Run(dec)
-            sub.weak = base
-            sub.refined = dict(run.refined)
-            sub.ranges = dict(run.ranges)
-            sub.facts = list(run.facts)
-            nfacts = len(sub.facts)
-            sub.wires = run.wires + 1000 * (run.loop_depth + 1)
-            sub.loop_depth = run.loop_depth + 1
-            env.vars.clear()
-            env.vars.update(snapshot)
-            try:
-                v = body_fn(sub)
-                out = ("next", v)
-            except _Continue:
-                out = ("next", None)
-            except _Break:
-                out = ("break", None)
-            except _Return as r:
-                out = ("return", r.v)
-            except Raised as r:
-                out = ("raise", r.exc)
-            results.append((sub.facts[nfacts:], list(sub.effects), out[0], out[1]))
-            if len(results) > 256:
-                raise Limit(f"loop body at {self.site(node)} has more than 256 paths")
-            for i in range(len(dec), len(sub.decisions)):
-                todo.append(sub.decisions[:i] + [False])
+        carried = {}  # local names rebound by an iteration that ends normally: what the NEXT iteration finds in them
+
+        def explore_with(snap):
+            results, todo = [], [[]]
+            while todo:
+                dec = todo.pop()
+                sub = Run(dec)
+                sub.weak = base
+                sub.refined = dict(run.refined)
+                sub.ranges = dict(run.ranges)
+                sub.facts = list(run.facts)
+                nfacts = len(sub.facts)
+                sub.wires = run.wires + 1000 * (run.loop_depth + 1)
+                sub.loop_depth = run.loop_depth + 1
+                env.vars.clear()
+                env.vars.update(snap)
+                try:
+                    v = body_fn(sub)
+                    out = ("next", v)
+                except _Continue:
+                    out = ("next", None)
+                except _Break:
+                    out = ("break", None)
+                except _Return as r:
+                    out = ("return", r.v)
+                except Raised as r:
+                    out = ("raise", r.exc)
+                results.append((sub.facts[nfacts:], list(sub.effects), out[0], out[1]))
+                if out[0] == "next":
+                    for nm_, v_ in env.vars.items():
+                        if nm_ in snapshot and snapshot[nm_] is not v_ and not (is_concrete(v_) and not isinstance(v_, Obj) and snapshot[nm_] == v_):
+                            carried.setdefault(nm_, []).append(v_)
+                if len(results) > 256:
+                    raise Limit(f"loop body at {self.site(node)} has more than 256 paths")
+                for i in range(len(dec), len(sub.decisions)):
+                    todo.append(sub.decisions[:i] + [False])
+            return results
+        results = explore_with(snapshot)
+        loaded = set()
+        for st in (getattr(node, "body", None) or [node]):
+            for n_ in ast.walk(st if isinstance(st, ast.AST) else node):
+                if isinstance(n_, ast.Name) and isinstance(n_.ctx, ast.Load):
+                    loaded.add(n_.id)
+        again = {nm_: vals for nm_, vals in carried.items() if nm_ in loaded}
+        if again:
+            first_round = dict(again)
+            seen_keys = {repr((f_, [e_[:3] for e_ in ef_], o_)) for f_, ef_, o_, _ in results}
+            for nm_, vals in sorted(first_round.items()):
+                alts = []
+                for v_ in vals:
+                    if not any(v_ is a_ or (is_concrete(v_) and not isinstance(v_, Obj) and is_concrete(a_) and not isinstance(a_, Obj) and v_ == a_) for a_ in alts):
+                        alts.append(v_)
+                if len(alts) > 4:
+                    raise Limit(f"loop-carried local {nm_!r} at {self.site(node)} takes more than 4 different values")
+                for a_ in alts:
+                    snap2 = dict(snapshot)
+                    snap2[nm_] = a_
+                    for r_ in explore_with(snap2):
+                        k_ = repr((r_[0], [e_[:3] for e_ in r_[1]], r_[2]))
+                        if k_ not in seen_keys:
+                            seen_keys.add(k_)
+                            results.append(r_)
+                            run.emit("loop-carried", nm_, self.site(node))
         env.vars.clear()
         env.vars.update(snapshot)
         return results
